@@ -725,7 +725,7 @@ def gen_session(session_seed, pid, tier, profile=None):
                     mj = P.get("mask_jit", 0.0)
                     if mj > 0:
                         # C35 profile: Mask encodings only matter where a constraint is passed
-                        has_c = bool(st.get("constraint"))
+                        has_c = st.get("constraint") is not None and st["op"] in ("importance", "update")
                         mk = {k: w for k, w in kinds_on.items() if k.startswith("enc:mask")}
                         ok_ = {k: w for k, w in kinds_on.items() if not k.startswith("enc:mask")}
                         if has_c and mk and rng.random() < 0.8:
